@@ -56,7 +56,12 @@ CONFIGS = [
     Config('avx512vnni_bw', 'xsimd::avx512vnni<xsimd::avx512bw>', AVX512BW + ['-mavx512vnni'], 512, True, family='avx512'),
     Config('avx512vnni_vbmi2', 'xsimd::avx512vnni<xsimd::avx512vbmi2>', AVX512VBMI2 + ['-mavx512vnni'], 512, True, family='avx512'),
 ]
-BY_NAME = dict((c.name, c) for c in CONFIGS)
+# the emulated architectures (arrays of scalars; -DXSIMD_WITH_EMULATED=1): analysed where the engines can follow them
+EMULATED = [
+    Config('emu128', 'xsimd::emulated<128>', SSE2 + ['-DXSIMD_WITH_EMULATED=1'], 128, family='emu'),
+    Config('emu256', 'xsimd::emulated<256>', SSE2 + ['-DXSIMD_WITH_EMULATED=1'], 256, family='emu'),
+]
+BY_NAME = dict((c.name, c) for c in CONFIGS + EMULATED)
 
 # quick tier analyses every configuration as well (compilation is cached); this
 # subset is only used by the slowest instantiation sweeps (C05/C19 random masks)
